@@ -594,3 +594,27 @@ def _(rng, v):
         m.fit(Y, V1); m.fit(Y, V1)
         return m.beta_, m.V2
     return f, (Y, V1, X), {}
+
+
+@entry("_cspline_sample1d/2d/3d all boundary modes, coordinates far outside the grid")
+def _(rng, v):
+    from nipy.algorithms.registration._registration import (_cspline_transform, _cspline_sample1d,
+                                                            _cspline_sample2d, _cspline_sample3d)
+    if v in ("empty",):
+        raise Skip()
+    d1 = data(rng, v, (5,)); d2 = data(rng, v, (4, 3)); d3 = data(rng, v, (3, 4, 2))
+
+    def grid(n):
+        return np.arange(-2.0 * n - 1, 3.0 * n + 1, 0.5)
+
+    def f(d1, d2, d3):
+        out = []
+        for mode in ("zero", "nearest", "reflect"):
+            c1 = _cspline_transform(d1); x = grid(d1.shape[0])
+            out.append(_cspline_sample1d(np.zeros(x.size), c1, x, mode=mode))
+            c2 = _cspline_transform(d2); x = grid(d2.shape[0]); y = np.resize(grid(d2.shape[1]), x.size)
+            out.append(_cspline_sample2d(np.zeros(x.size), c2, x, y, mx=mode, my=mode))
+            c3 = _cspline_transform(d3); x = grid(d3.shape[0]); y = np.resize(grid(d3.shape[1]), x.size); z = np.resize(grid(d3.shape[2]), x.size)
+            out.append(_cspline_sample3d(np.zeros(x.size), c3, x, y, z, mx=mode, my=mode, mz=mode))
+        return out
+    return f, (d1, d2, d3), {}
